@@ -44,7 +44,7 @@ func Explore(w *World, cfg *Config, entry *ssa.Function, nWorkers, maxPaths, tim
 				mu.Unlock()
 				return
 			}
-			defer solver.Close()
+			defer func() { solver.Close() }()
 			oneshot, err := smt.New(solverKind, timeoutMs)
 			if err != nil {
 				mu.Lock()
@@ -52,7 +52,7 @@ func Explore(w *World, cfg *Config, entry *ssa.Function, nWorkers, maxPaths, tim
 				mu.Unlock()
 				return
 			}
-			defer oneshot.Close()
+			defer func() { oneshot.Close() }()
 			if p := os.Getenv("GOSYMX_SMTLOG"); p != "" {
 				if f, err := os.Create(fmt.Sprintf("%s.%d", p, wid)); err == nil {
 					solver.Log = f
@@ -91,6 +91,14 @@ func Explore(w *World, cfg *Config, entry *ssa.Function, nWorkers, maxPaths, tim
 				mu.Unlock()
 
 				res := RunPath(w, cfg, solver, oneshot, entry, prefix)
+				if solver.Dead() {
+					solver.Close()
+					solver, _ = smt.New(solverKind, timeoutMs)
+				}
+				if oneshot.Dead() {
+					oneshot.Close()
+					oneshot, _ = smt.New(solverKind, timeoutMs)
+				}
 
 				mu.Lock()
 				active--
